@@ -14,6 +14,8 @@ pub mod ora;
 pub mod gen;
 #[cfg(not(kani))]
 pub mod cases_gf255;
+#[cfg(not(kani))]
+pub mod cases_recode;
 
 #[cfg(kani)]
 pub mod kani_harnesses;
@@ -33,5 +35,6 @@ pub struct Case {
 pub fn all_cases() -> Vec<Case> {
     let mut v = Vec::new();
     cases_gf255::register(&mut v);
+    cases_recode::register(&mut v);
     v
 }
